@@ -324,6 +324,29 @@ def _blocks(e):
     return None
 
 
+class _NameParts(ast.NodeTransformer):
+    """tr2rt(T)[0] / t2r(T) / T[:3, :3] -> R ;  tr2rt(T)[1] / transl(T) / T[:3, 3] -> t ;  zeros((3, 3)) -> Z"""
+
+    def __init__(self, T):
+        self.T = T
+
+    def visit_Subscript(self, n):
+        self.generic_visit(n)
+        for pat, nm in (('tr2rt(%s)[0]' % self.T, 'R'), ('tr2rt(%s)[1]' % self.T, 't'), ('%s[:3, :3]' % self.T, 'R'), ('%s[:3, 3]' % self.T, 't')):
+            if matches(pat, n) is not None:
+                return ast.Name(id=nm, ctx=ast.Load())
+        return n
+
+    def visit_Call(self, n):
+        self.generic_visit(n)
+        for pat, nm in (('t2r(%s)' % self.T, 'R'), ('transl(%s)' % self.T, 't'), ('zeros((3, 3))', 'Z'), ('zeros((3, 3), *_K)', 'Z')):
+            if matches(pat, n) is not None:
+                return ast.Name(id=nm, ctx=ast.Load())
+        if isinstance(n.func, ast.Name) and n.func.id == 'zeros' and n.args and ast.unparse(n.args[0]) in ('(3, 3)', '[3, 3]'):
+            return ast.Name(id='Z', ctx=ast.Load())
+        return n
+
+
 def _adjoint(run):
     cx = Ctx(run, 'base/transforms3d:adjoint')
     for shape, want in (('(4, 4)', [['R', 'skew(t) @ R'], ['Z', 'R']]), ('(3, 3)', [['R', 'Z'], ['Z', 'R']])):
@@ -363,8 +386,13 @@ def _adjoint(run):
         b = _blocks(canon(cj.fi, rets[0].value, inline=False))
         roles = _roles(cj, rets[0], '(4, 4)')
         if b is None or roles is None:
-            run.error('R16: tr2jac %s: unrecognised' % nm_)
-            continue
+            # roles by substitution: evaluate the path symbolically and name the parts of T
+            ev = [e for (r_, e) in sl_eval(cj) if r_ is rets[0]]
+            b = _blocks(_NameParts(cj.pname(0)).visit(_copy.deepcopy(ev[0]))) if len(ev) == 1 else None
+            roles = {}
+            if b is None:
+                run.error('R16: tr2jac %s: unrecognised' % nm_)
+                continue
         nmz = Normaliser(rename=roles)
         got = [[nmz.poly(x) for x in r] for r in b]
         wantp = [[Normaliser().poly(parse_expr(x)) for x in r] for r in want]
@@ -718,6 +746,8 @@ def check_routes(run, routes, rule='R15'):
             hit = [m for (p, m) in wrong if matches(p, e) is not None]
             if hit:
                 run.violation(rule, key, desc, hit[0] + ': ' + src(r.value, 70), f=f, node=r)
+            elif key in ('pose3d:SE3.inv', 'pose2d:SE2.inv') and check_batched_inverse(run, key, 3 if key.startswith('pose3d') else 2, rule=rule) is not None:
+                pass
             else:
                 run.error('%s: %s: return %s has none of the recognised forms for "%s" (%s)' % (rule, key, src(r.value, 70), desc, pats[0]))
         else:
@@ -2474,3 +2504,100 @@ def check_det(run, rule='R16'):
                           'determinants of the same matrix disagree' % (k, k, diff), f=f, node=r)
     if n < 2:
         run.error('R16: det: fewer than 2 returns')
+
+
+# =========================================================================== batched (stacked-array) structured inverse
+class _Unbatch(ast.NodeTransformer):
+    """rewrite numpy idioms on a stacked (M, k, k) array into the per-element idiom:
+       X[:, a, b] -> X[a, b];  X.transpose(0, 2, 1) -> X.T;  swapaxes(1, 2) -> .T;
+       einsum('nij,nj->ni', A, b) -> A @ b;  einsum('nji,nj->ni', A, b) -> A.T @ b;  A @ b[..., None] left alone (unrecognised)"""
+
+    def __init__(self, names):
+        self.names = names
+
+    def visit_Subscript(self, n):
+        self.generic_visit(n)
+        if isinstance(n.value, ast.Name) and n.value.id in self.names and isinstance(n.slice, ast.Tuple) and len(n.slice.elts) == 3:
+            first = n.slice.elts[0]
+            if isinstance(first, ast.Slice) and first.lower is None and first.upper is None and first.step is None:
+                return ast.Subscript(value=n.value, slice=ast.Tuple(elts=n.slice.elts[1:], ctx=ast.Load()), ctx=n.ctx)
+        return n
+
+    def visit_Call(self, n):
+        self.generic_visit(n)
+        if isinstance(n.func, ast.Attribute) and n.func.attr == 'transpose' and [getattr(a, 'value', None) for a in n.args] == [0, 2, 1]:
+            return ast.Attribute(value=n.func.value, attr='T', ctx=ast.Load())
+        if isinstance(n.func, ast.Attribute) and n.func.attr == 'swapaxes' and sorted(getattr(a, 'value', None) for a in n.args) == [1, 2]:
+            return ast.Attribute(value=n.func.value, attr='T', ctx=ast.Load())
+        if isinstance(n.func, ast.Name) and n.func.id == 'einsum' and len(n.args) == 3 and isinstance(n.args[0], ast.Constant):
+            spec = n.args[0].value.replace(' ', '')
+            try:
+                ins, out = spec.split('->')
+                a, b = ins.split(',')
+            except ValueError:
+                raise Unrecognised('einsum ' + spec)
+            # batched matrix-vector product: a = n p q, b = n r, out = n s
+            if len(a) == 3 and len(b) == 2 and len(out) == 2 and a[0] == b[0] == out[0]:
+                summed = b[1]
+                if summed == a[2] and out[1] == a[1]:
+                    return ast.BinOp(left=n.args[1], op=ast.MatMult(), right=n.args[2])
+                if summed == a[1] and out[1] == a[2]:
+                    return ast.BinOp(left=ast.Attribute(value=n.args[1], attr='T', ctx=ast.Load()), op=ast.MatMult(), right=n.args[2])
+            raise Unrecognised('einsum ' + spec)
+        return n
+
+
+def check_batched_inverse(run, key, n, rule='R15'):
+    """If the multi-valued branch of an SE(n) inverse is written on the stacked array, normalise it to the per-element idiom and
+    compare with the structured inverse  [[R^T, -R^T t], [0, 1]]  (R = T[:n,:n], t = T[:n,n]) written into zeros."""
+    f = run.prog.func(key)
+    fi = FuncInfo.of(f)
+    # the block that allocates the stacked result
+    alloc = None
+    for st in own_walk(f.node):
+        if isinstance(st, ast.Assign) and isinstance(st.targets[0], ast.Name) and isinstance(st.value, ast.Call):
+            c = canon(fi, st.value, inline=False)
+            if matches('zeros(_S, *_R)', c) is not None and matches('_X.shape', c.args[0]) is not None:
+                alloc = st
+    if alloc is None:
+        return None
+    blk = _enclosing_block(f.node, alloc) or []
+    out = alloc.targets[0].id
+    srcname = None
+    for st in blk:
+        if isinstance(st, ast.Assign) and isinstance(st.targets[0], ast.Name):
+            c = canon(fi, st.value, inline=False)
+            if matches('array(%s.A)' % f.selfname, c) is not None or matches('asarray(%s.A)' % f.selfname, c) is not None or \
+                    matches('stack(%s.A)' % f.selfname, c) is not None or matches('array(%s.data)' % f.selfname, c) is not None:
+                srcname = st.targets[0].id
+    if srcname is None:
+        run.error('%s: %s: stacked-array branch without a recognised `T = np.array(self.A)`' % (rule, key))
+        return False
+    tbl = {}
+    nm = Normaliser(rename={srcname: 'T'})
+    env = {}
+    try:
+        for st in blk:
+            if isinstance(st, ast.Assign) and isinstance(st.targets[0], ast.Name) and st.targets[0].id not in (out, srcname):
+                # locals of the block (Rt = T[:, :3, :3].transpose(0, 2, 1)) are substituted in their per-element form
+                v = _Unbatch({out, srcname}).visit(_copy.deepcopy(canon(fi, st.value, inline=False)))
+                env[st.targets[0].id] = _Subst(env).visit(v)
+            if isinstance(st, ast.Assign) and isinstance(st.targets[0], ast.Subscript) and isinstance(st.targets[0].value, ast.Name) and st.targets[0].value.id == out:
+                tgt = _Unbatch({out, srcname}).visit(_copy.deepcopy(st.targets[0]))
+                val = _Subst(env).visit(_Unbatch({out, srcname}).visit(_copy.deepcopy(canon(fi, st.value, inline=False))))
+                tbl[nm.slice_str(tgt.slice)] = nm.poly(val)
+    except Unrecognised as ex:
+        run.error('%s: %s: stacked-array inverse unrecognised: %s' % (rule, key, ex))
+        return False
+    R, t = 'T[:%d, :%d]' % (n, n), 'T[:%d, %d]' % (n, n)
+    wn = Normaliser()
+    want = {':%d, :%d' % (n, n): wn.poly(parse_expr('%s.T' % R)), ':%d, %d' % (n, n): wn.poly(parse_expr('-%s.T @ %s' % (R, t))), '%d, %d' % (n, n): wn.poly(parse_expr('1'))}
+    bad = [(k, tbl.get(k), w) for k, w in want.items() if tbl.get(k) != w]
+    construct = 'stacked-array inverse'
+    if not bad and set(tbl) == set(want):
+        run.holds(rule, key, construct, 'per element [[R^T, -R^T t],[0, 1]] written into zeros', f=f, node=alloc)
+        return True
+    k, g, w = (bad[0] if bad else (sorted(set(tbl) - set(want))[0], None, None))
+    run.violation(rule, key, construct, 'in the vectorised branch the block [%s] of each inverse is %s; the structured inverse of [[R, t],[0, 1]] has %s there '
+                  '(elements of a multi-valued object are not inverted: X.inv()[i] != X[i].inv())' % (k, g, w), f=f, node=alloc)
+    return False
